@@ -42,50 +42,7 @@ def run(prog, rep):
     rep.rule('R4', 'service-port peers disconnected before graph-level removal', floor=3)
 
     # ---- R1 ----
-    for spec in ('fim.user.network_service:NetworkService', 'fim.user.interface:Interface'):
-        cls = prog.cls(spec)
-        mod = cls.module
-        for name, fn in cls.methods.items():
-            removals = [c for c in walk_no_nested(fn) if isinstance(c, ast.Call) and call_name(c) == 'remove_cp_and_links']
-            if name == '__init__':
-                continue
-            for rc in removals:
-                ch = attr_chain(rc.func)
-                owner = ch[0] if ch else None
-                rid = kwarg(rc, 'node_id') or (rc.args[0] if rc.args else None)
-                fq = f'{cls.name}.{name}'
-                rid_txt = ast.unparse(rid) if rid is not None else None
-                # cache filters in this function
-                filt = []
-                for n in walk_no_nested(fn):
-                    if isinstance(n, ast.Assign) and isinstance(n.targets[0], ast.Attribute) and n.targets[0].attr == '_interfaces':
-                        filt.append(n)
-                ok = False
-                detail = None
-                for a in filt:
-                    tgt_owner = ast.unparse(a.targets[0].value)
-                    srcs = [ast.unparse(x.value) for x in ast.walk(a.value) if isinstance(x, ast.Attribute) and x.attr == '_interfaces']
-                    ids = [ast.unparse(x.comparators[0]) for x in ast.walk(a.value) if isinstance(x, ast.Compare) and isinstance(x.ops[0], ast.NotEq)
-                           and 'node_id' in ast.unparse(x.left)]
-                    if tgt_owner == owner and ids and ids[0] == rid_txt:
-                        detail = (tgt_owner, srcs, a)
-                        if srcs == [owner] and a.lineno > rc.lineno:
-                            ok = True
-                if not ok and detail is None and _never_cached(fn, rc, rid):
-                    rep.instance('R1', f'{fq}: removal of {rid_txt}: the element was created here and is not yet on any handle cache when it is removed')
-                    continue
-                rep.instance('R1', f'{fq}: removal of {rid_txt} on {owner}: cache filter {"ok" if ok else ("wrong" if detail else "missing")}')
-                if ok:
-                    continue
-                if detail is None:
-                    rep.violation('R1', loc(mod, rc), fq, f'{norm(rc, 90)} without a filter of {owner}._interfaces',
-                                  f'{fq} removes the child {rid_txt} of `{owner}` from the model but never removes it from '
-                                  f'{owner}._interfaces: the handle keeps reporting the removed interface (and refuses to reuse its name)')
-                else:
-                    tgt_owner, srcs, a = detail
-                    rep.violation('R1', loc(mod, a), fq, norm(a, 120),
-                                  f'{tgt_owner}._interfaces is rebuilt from {srcs} instead of from {tgt_owner}._interfaces: the handle '
-                                  f'ends up with another object\'s interfaces')
+    check_cache_after_removal(prog, rep, 'R1')
 
     # ---- R2 / R3 ----
     apg = prog.cls(APG)
@@ -108,6 +65,16 @@ def run(prog, rep):
                     tested = True
         if not tested:
             rep.violation('R2', loc(amod, fn), fq, 'start class not tested', f'{rname} must verify that the element is a {start_cls}')
+        # the cascade removes an interface with everything below it: inside the graph-level removers the parent switch of
+        # remove_cp_and_links stays at its default (only removing a single sub-interface through its parent turns it off)
+        for c in walk_no_nested(fn):
+            if isinstance(c, ast.Call) and call_name(c) == 'remove_cp_and_links':
+                dpv_ = kwarg(c, 'delete_parent') or (c.args[1] if len(c.args) > 1 else None)
+                rep.instance('R2', f'{fq}: remove_cp_and_links(delete_parent={norm(dpv_) if dpv_ is not None else "default"})')
+                if dpv_ is not None and not (isinstance(dpv_, ast.Constant) and dpv_.value is True):
+                    rep.violation('R2', loc(amod, c), fq, f'remove_cp_and_links(delete_parent={norm(dpv_)})',
+                                  f'{rname} removes the interfaces of the element with delete_parent={norm(dpv_)}: the interfaces joined to them '
+                                  f'as parent/child (sub-interfaces of a dedicated port) are owned by the removed element too and stay behind')
         got = {}
         for n in walk_no_nested(fn):
             if isinstance(n, ast.Assign) and isinstance(n.value, ast.Call) and call_name(n.value) == 'get_first_neighbor':
@@ -258,6 +225,56 @@ def run(prog, rep):
     rep.instance('R4', 'Topology.remove_switch delegates to remove_node')
     if rs is None or not any(isinstance(c, ast.Call) and call_name(c) == 'remove_node' for c in walk_no_nested(rs)):
         rep.violation('R4', loc(topo.module, rs or topo.node), 'Topology.remove_switch', 'does not delegate to remove_node', 'switch removal must disconnect peers like node removal')
+
+
+def check_cache_after_removal(prog, rep, rule):
+    """After a child interface is removed from the model through a handle, the interface cache of that same handle is
+    rebuilt from itself without the removed id (shared with C07: the views must list exactly what the model holds)."""
+    for spec in ('fim.user.network_service:NetworkService', 'fim.user.interface:Interface'):
+        cls = prog.cls(spec)
+        mod = cls.module
+        for name, fn in cls.methods.items():
+            removals = [c for c in walk_no_nested(fn) if isinstance(c, ast.Call) and call_name(c) == 'remove_cp_and_links']
+            if name == '__init__':
+                continue
+            for rc in removals:
+                ch = attr_chain(rc.func)
+                owner = ch[0] if ch else None
+                rid = kwarg(rc, 'node_id') or (rc.args[0] if rc.args else None)
+                fq = f'{cls.name}.{name}'
+                rid_txt = ast.unparse(rid) if rid is not None else None
+                # cache filters in this function
+                filt = []
+                for n in walk_no_nested(fn):
+                    if isinstance(n, ast.Assign) and isinstance(n.targets[0], ast.Attribute) and n.targets[0].attr == '_interfaces':
+                        filt.append(n)
+                ok = False
+                detail = None
+                for a in filt:
+                    tgt_owner = ast.unparse(a.targets[0].value)
+                    srcs = [ast.unparse(x.value) for x in ast.walk(a.value) if isinstance(x, ast.Attribute) and x.attr == '_interfaces']
+                    ids = [ast.unparse(x.comparators[0]) for x in ast.walk(a.value) if isinstance(x, ast.Compare) and isinstance(x.ops[0], ast.NotEq)
+                           and 'node_id' in ast.unparse(x.left)]
+                    if tgt_owner == owner and ids and ids[0] == rid_txt:
+                        detail = (tgt_owner, srcs, a)
+                        if srcs == [owner] and a.lineno > rc.lineno:
+                            ok = True
+                if not ok and detail is None and _never_cached(fn, rc, rid):
+                    rep.instance(rule, f'{fq}: removal of {rid_txt}: the element was created here and is not yet on any handle cache when it is removed')
+                    continue
+                rep.instance(rule, f'{fq}: removal of {rid_txt} on {owner}: cache filter {"ok" if ok else ("wrong" if detail else "missing")}')
+                if ok:
+                    continue
+                if detail is None:
+                    rep.violation(rule, loc(mod, rc), fq, f'{norm(rc, 90)} without a filter of {owner}._interfaces',
+                                  f'{fq} removes the child {rid_txt} of `{owner}` from the model but never removes it from '
+                                  f'{owner}._interfaces: the handle keeps reporting the removed interface (and refuses to reuse its name)')
+                else:
+                    tgt_owner, srcs, a = detail
+                    rep.violation(rule, loc(mod, a), fq, norm(a, 120),
+                                  f'{tgt_owner}._interfaces is rebuilt from {srcs} instead of from {tgt_owner}._interfaces: the handle '
+                                  f'ends up with another object\'s interfaces')
+
 
 
 def check_cp_remover(prog, rep, rule):
